@@ -2,7 +2,8 @@
 from ..engine import rule
 from ..db import (walk, peel, peel_casts, render, callee, path_ends, short_path, is_call, call_args, lit_int,
                   exit_kind, path_conditions, atoms, AnchorMissing, local_name)
-from ..guards import guarded_exits, mentions, is_call_to, cmp_atom
+from ..guards import guarded_exits, mentions, is_call_to, cmp_atom, holds
+from ..db import SWAP
 from ..origins import origins, for_loop_parts
 from .. import cg
 from .C02 import _loops, _chain
@@ -161,9 +162,67 @@ def merged_fields(db, ctx):
             return False
         sides = {nf(c[1]), nf(c[2])}
         return sides == {"path[begin].word_info().pos_id()", "self.numeric_pos_id"} and ((c[0] == "Ne" and pol) or (c[0] == "Eq" and not pol))
-    ok = any(ek in ("ok", "ret") and _pos_guard(cond, pol) for ifn, cond, pol, ek, ps in guarded_exits(jn.hir))
-    first = ok
-    ctx.ob("JoinNumericPlugin::concat|numeral-pos-only", ok and first, "concat returns the path unchanged unless path[begin]'s POS is the numeral POS: %s/%s" % (ok, first), fn=jn)
+    # every concat_nodes call in `concat` is unreachable when the first node's POS is not the numeral POS (not merely: a guard exists)
+    from ..flow import holds_at
+    jn = db.view(jn)
+
+    def ev_pos(equal):
+        def ev(atom):
+            c = cmp_atom(atom)
+            if c and c[0] in ("Eq", "Ne") and {nf(c[1]), nf(c[2])} == {"path[begin].word_info().pos_id()", "self.numeric_pos_id"}:
+                return equal if c[0] == "Eq" else (not equal)
+            return None
+        return ev
+    cn_calls = [c for c, _ in walk(jn.hir) if is_call(c) and path_ends(callee(c), "concat_nodes")]
+    ok = bool(cn_calls)
+    shown = []
+    for c in cn_calls:
+        pcs = path_conditions(c["id"], jn.hir) or []
+        r_ne, r_eq = holds_at(pcs, ev_pos(False)), holds_at(pcs, ev_pos(True))
+        shown.append((c.get("sp", "").split(":", 1)[-1], r_ne, r_eq))
+        ok = ok and r_ne is False and r_eq is not False
+    ctx.ob("JoinNumericPlugin::concat|numeral-pos-only", ok,
+           "every concat_nodes call in JoinNumericPlugin::concat is unreachable unless path[begin]'s POS is the numeral POS: (site, reachable at pos!=numeral, "
+           "at pos==numeral) = %s" % shown, fn=jn)
+    # katakana joining: concat_oov_nodes is reached only for a run of at least two nodes, measured on the very (begin, end) it is given
+    from ..flow import var_evaluator
+    jk = db.view(db.one("rewrite_gen", "JoinKatakanaOovPlugin"))
+    for c, ps in walk(jk.hir):
+        if not (is_call(c) and path_ends(callee(c), "concat_oov_nodes")):
+            continue
+        a = call_args(c)
+        B, E = peel_casts(a[1]), peel_casts(a[2])
+        pcs = path_conditions(c["id"], jk.hir) or []
+
+        def ev_len(n):
+            def ev(atom):
+                cm = cmp_atom(atom)
+                if not cm:
+                    return None
+                for x, y, op in ((cm[1], cm[2], cm[0]), (cm[2], cm[1], SWAP[cm[0]])):
+                    px = peel_casts(x)
+                    if px.get("k") == "Binary" and px.get("op") == "Sub" and nf(px["l"]) == nf(E) and nf(px["r"]) == nf(B) and lit_int(y) is not None:
+                        return holds(op, n, lit_int(y))
+                if cm[0] in ("Eq", "Ne") and {nf(cm[1]), nf(cm[2])} == {nf(B), nf(E)}:
+                    return (n == 0) if cm[0] == "Eq" else (n != 0)
+                return None
+            return ev
+        long_only = holds_at(pcs, ev_len(1)) is False and holds_at(pcs, ev_len(2)) is not False
+        # ... and neither bound is changed between that test and the call
+        stale = []
+        guard_ifs = [p for p in ps if p.get("k") == "If" and any(peel_casts(x).get("k") == "Binary" and peel_casts(x).get("op") == "Sub" for x, _ in walk(p["cond"]))]
+        if guard_ifs:
+            region = guard_ifs[-1]["then"]
+            seen_call = False
+            for x, _ in walk(region):
+                if x is c:
+                    seen_call = True
+                if not seen_call and x.get("k") in ("Assign", "AssignOp") and peel(x["l"]).get("lid") in (B.get("lid"), E.get("lid")):
+                    stale.append(render(x))
+        ctx.ob("JoinKatakanaOovPlugin|merge-needs-two-nodes", long_only and not stale,
+               "concat_oov_nodes(path, %s, %s, ..) is reached only when %s - %s >= 2: %s; bounds changed between the test and the call: %s (a single "
+               "node passed to the merge helper is reported with the plugin's POS although nothing was merged)" % (render(a[1]), render(a[2]), render(a[2]), render(a[1]), long_only, stale),
+               fn=jk, site=c.get("sp"))
     ctx.floor(10)
 
 
